@@ -62,7 +62,7 @@ func (p *Program) Run(ctx context.Context, setters ...Option) (result []byte, er
 			case string:
 				err = errors.New(x)
 			case error:
-				err = errors.WithStack(err)
+				err = errors.WithStack(x)
 			default:
 				err = errors.New("unknown panic")
 			}
